@@ -245,8 +245,9 @@ impl Cmd {
         match self {
             Cmd::Backup => vec!["backup"],
             Cmd::Install => vec!["install"],
-            Cmd::Restore(true) => vec!["restore", "true"],
-            Cmd::Restore(false) => vec!["restore", "false"],
+            // `restore` deletes the backup afterwards; the tool's parser accepts no value for DELETE_BACKUP (`restore false`
+            // and `restore true` are rejected: "0 values required"), so the variant that keeps the backup cannot be invoked
+            Cmd::Restore(_) => vec!["restore"],
             Cmd::UninstallService => vec!["uninstall", "service"],
             Cmd::UninstallPackage => vec!["uninstall", "package"],
             Cmd::Purge => vec!["purge"],
@@ -398,6 +399,16 @@ fn step(env: &mut Env, st: &State, cmd: Cmd, pkg: &Files, root_desc: &str, fails
             }
         }
     }
+    // (2b) restore without a backup changes nothing: in particular it must not leave the service stopped
+    if ok && matches!(cmd, Cmd::Restore(_)) && !has_backup {
+        if let Some(i) = calls.iter().rposition(|c| c.args == "stop azure-proxy-agent") {
+            if !calls[i..].iter().any(|c| c.args == "start azure-proxy-agent") {
+                ok = false;
+                let seen: Vec<String> = calls.iter().map(|c| c.args.clone()).collect();
+                complain("restore without a backup must change nothing", format!("service stopped and not started again; systemctl calls: {}", seen.join(", ")), "service left as it was".to_string());
+            }
+        }
+    }
     // (3) nothing outside the locations, the backup folder and the log
     if ok {
         let allowed_etc = ["azure", "azure/proxy-agent.json"];
@@ -458,7 +469,7 @@ fn explore(env: &mut Env, st: &State, depth: usize, pkg: &Files, root_desc: &str
     if depth == 0 || fails.len() >= 12 || t0.elapsed().as_secs() > 240 {
         return;
     }
-    for cmd in [Cmd::Backup, Cmd::Install, Cmd::Restore(false), Cmd::Restore(true), Cmd::UninstallService, Cmd::UninstallPackage, Cmd::Purge] {
+    for cmd in [Cmd::Backup, Cmd::Install, Cmd::Restore(true), Cmd::UninstallService, Cmd::UninstallPackage, Cmd::Purge] {
         if cmd == Cmd::Backup && st.sys[0].is_none() {
             continue;
         }
